@@ -280,6 +280,12 @@ def run(ck):
             elif nplain < (60 if big else 20):
                 nplain += 1
                 sc = to_scenario(hist, ck.rng, "seq-%d" % len(scen))
+                if nplain % 2 == 0 and all(s.get("kind") != "reload" for s in sc["steps"]):
+                    # the same behaviour while the configuration file cannot be saved: what is forwarded follows the configuration in effect
+                    for s in sc["steps"]:
+                        if s.get("kind") == "rebuild":
+                            s["kind"] = "rebuild-nosave"
+                    sc["name"] = sc["name"].replace("seq-", "seq-nosave-")
             else:
                 continue
             scen.append((sc, "TLC simulation without overlap", x["e"], False))
@@ -317,5 +323,5 @@ def run(ck):
     ck.assumptions += ["gates sit between proxy invalidation and router rebuild and between route load and proxy lookup; interleavings inside these "
                        "segments are not explored", "a value t1/t2 of the model is one (target, options) pair; the target side reports which listener was "
                        "reached, the Host header it saw and the status, from which the value in effect is read back",
-                       "gateway RPCs (publish, unpublish, release, registered hostnames) are scripted and succeed",
+                       "gateway RPCs (publish, unpublish, release, registered hostnames) are scripted and succeed; in the nosave behaviours saving the configuration file fails (the change applies all the same)",
                        "DESIGN 4.0: connections whose handling overlaps a change are not judged"]
